@@ -348,6 +348,8 @@ def _interval(e, env, depth):
         return ty_range(dty)
     if k == "discr":
         t = expr_ty(e[1])
+        if t and (t.startswith("std::option::Option<") or t.startswith("std::result::Result<") or t.startswith("std::ops::ControlFlow<")):
+            return (0, 1)
         if t and FACTS is not None:
             adt = FACTS.adts.get(t.split("<")[0])
             if adt and adt["kind"] == "Enum":
